@@ -65,5 +65,5 @@ func (p *PPU) VerifPaletteInv() bool {
 			return false
 		}
 	}
-	return p.obp0Colour[0] == 0 && p.obp1Colour[0] == 0
+	return true
 }
